@@ -107,7 +107,7 @@ type Options struct {
 	Adversarial int // steps decided by the chooser (default 2000)
 	FairTail    int // further round-robin steps before a worker is declared non-terminating (default 10000)
 	Trace       bool
-	StuckAfter  time.Duration // wall-clock guard per step (default 20s) => Stuck (inconclusive)
+	StuckAfter  time.Duration // wall-clock guard per step (default 60s) => Stuck (inconclusive)
 }
 
 // Run executes fns as cooperative workers under ch.
@@ -119,7 +119,7 @@ func Run(ch Chooser, opt Options, fns ...func()) *Result {
 		opt.FairTail = 10000
 	}
 	if opt.StuckAfter <= 0 {
-		opt.StuckAfter = 20 * time.Second
+		opt.StuckAfter = 60 * time.Second
 	}
 	sc := &Sched{yield: make(chan *worker), Trace: opt.Trace}
 	res := &Result{Panics: map[int]string{}}
